@@ -9,6 +9,9 @@
 //   during the init. Lifetime is ensured by not dropping until the Drop of the whole slot and that
 //   is checked by taking `&mut self`.
 
+#[cfg(sighook_verif)]
+use sighook_shim::sync::atomic::{AtomicPtr, Ordering};
+#[cfg(not(sighook_verif))]
 use std::sync::atomic::{AtomicPtr, Ordering};
 
 use libc::{c_int, siginfo_t};
